@@ -2,7 +2,7 @@
 
 import numpy as np
 
-from toqito.channel_ops import choi_to_kraus
+from toqito.channel_ops import choi_to_kraus, kraus_to_choi
 from toqito.matrix_props import is_unitary as is_unitary_matrix
 
 
@@ -75,6 +75,14 @@ def is_unitary(phi: np.ndarray | list[list[np.ndarray]]) -> bool:
         except ValueError:
             # if we fail to obtain a Kraus representation then input/ouput spaces might be
             # non squares or their dimensions are not equal. Hence the channel is not unitary.
+            return False
+
+    # Several Kraus operators can still describe a unitary channel (e.g. [U / sqrt(2), U / sqrt(2)]): reduce the list to
+    # a minimal one through the Choi matrix.
+    if len(phi) != 1:
+        try:
+            phi = choi_to_kraus(kraus_to_choi(phi))
+        except ValueError:
             return False
 
     # If there is a unique Kraus operator and it's a unitary matrix then the channel is unitary.
